@@ -68,7 +68,7 @@ def bounds(tier):
             "matrix_total": 6, "matrix_total_variants": 3, "order_len": 4,
             "noncanon": {"one_column_total": 3, "two_columns_total": 2},
             "three": {"ACGT": 2, "ACGTN-": 2, "ACN": 3}, "protein_total": 4,
-            "nj_tips_len128": 6, "nj_tips_len18": 7, "nj_forms_tips": 5,
+            "nj_tips_len128": 6, "nj_tips_len18": 6, "nj_forms_tips": 5,
             "upgma": {"2": 5, "3": 5, "4": 5, "5": 5, "6": 5, "7": 4},
         },
     }[tier]
